@@ -421,13 +421,32 @@ func c17HTTPStatus(r *core.Report) {
 			}
 			n++
 			respStr := core.ExprStr(bodySel.X)
-			ok := false
-			for _, d := range g.Dominators(nd) {
-				if d.Kind == core.KEdge && d.Ast != nil && strings.Contains(core.ExprStr(d.Ast), respStr+".StatusCode") {
-					ok = true
+			// every way to the read passes a branch on the status code (one condition, nested ifs, or a helper handed the response)
+			respObj := core.ObjOf(info, bodySel.X)
+			tested := map[*core.GNode]bool{}
+			for _, d := range g.Nodes {
+				if d.Kind != core.KEdge || d.Ast == nil {
+					continue
+				}
+				if strings.Contains(core.ExprStr(d.Ast), respStr+".StatusCode") {
+					tested[d] = true
+				}
+				for _, c := range core.CallsIn(d.Ast, false) {
+					passes := false
+					for _, a := range c.Args {
+						if respObj != nil && core.ObjOf(info, a) == respObj {
+							passes = true
+						}
+					}
+					if fo := core.Callee(info, c); passes && fo != nil {
+						if h := p.ByObj[fo.Origin()]; h != nil && h.Body != nil && strings.Contains(core.ExprStr(h.Body), ".StatusCode") {
+							tested[d] = true
+						}
+					}
 				}
 			}
-			r.Check(ok, rule, fmt.Sprintf("%s#read(%s.Body)", f.Key, respStr), pos(r, bodySel), "the status code is tested before the body is read",
+			ok := len(tested) > 0 && g.PathAvoiding(g.Entry, func(x *core.GNode) bool { return x == nd }, func(x *core.GNode) bool { return tested[x] }) == nil
+			r.Check(ok, rule, fmt.Sprintf("%s#read(%s.Body)", f.Key, core.KeyStr(f, bodySel.X)), pos(r, bodySel), "the status code is tested before the body is read",
 				"the response body is read without the HTTP status having been tested on this path: an error page (404/416/500) is returned as file bytes and cached")
 		}
 	}
